@@ -495,6 +495,53 @@ def _multi_op_transactions(ctx, rep, base):
             rep.violate("C11:accepted-append-not-exact:multi-op", f"one transaction with 4 queued appends: {label} scan returns a={got}, row_count {hh.row_count()}",
                         {"kind": "multi-op-transaction"})
             break
+    # (1b) a BATCH of files rejected as a whole because of a later member (divergent footer / missing file): the caller catches the error and
+    # commits the same transaction with something else (or nothing else) queued — no file of the rejected batch may be published
+    for bad_kind in ("divergent", "missing"):
+        for also in ("record-append", "nothing"):
+            for pos in (1, 2):
+                p = os.path.join(base, f"multi-batch-{bad_kind}-{also}-{pos}")
+                t = create_table(p, Schema(schema_id=1, fields=fields))
+                t.append_records([{"a": 1, "b": "x"}])
+                before = _state(p)
+                batch = [mkfile(p, f"data/b{k_}.parquet", sch, 100 + k_) for k_ in range(3)]
+                if bad_kind == "divergent":
+                    batch[pos] = mkfile(p, "data/bbad.parquet", bad, 999)
+                else:
+                    os.remove(os.path.join(p, batch[pos].file_path.lstrip("/")))
+                tx = t.new_transaction().begin()
+                rejected = False
+                try:
+                    tx.append_files(batch)
+                except Exception:       # noqa: BLE001
+                    rejected = True
+                rep.evaluations += 1
+                rep.nontrivial(["multi-op-batch", bad_kind, also, pos])
+                case = {"kind": "rejected-batch-then-commit", "bad_member": bad_kind, "bad_position": pos, "also_queued": also}
+                if not rejected:
+                    tx.rollback()
+                    if bad_kind == "divergent":
+                        rep.violate("C11:accepted-file-makes-scan-fail", f"a batch holding a file with a divergent footer at position {pos} was accepted", case)
+                    continue
+                try:
+                    if also == "record-append":
+                        tx.append_data([{"a": 7, "b": "ok"}])
+                    tx.commit()
+                except Exception:       # noqa: BLE001
+                    try:
+                        tx.rollback()
+                    except Exception:   # noqa: BLE001
+                        pass
+                got = sorted(r["a"] for r in load_table(p).scan())
+                want = [1, 7] if also == "record-append" else [1]
+                if any(a_ >= 100 for a_ in got):
+                    rep.violate("C11:rejected-append-left-a-trace", f"append_files(batch of 3, member {pos} {bad_kind}) raised; committing the same transaction "
+                                f"afterwards ({also} queued) published files of the rejected batch: a={got}", case)
+                elif also == "nothing" and _state(p)[0] != before[0]:
+                    rep.violate("C11:rejected-append-left-a-trace", f"append_files(batch of 3, member {pos} {bad_kind}) raised; committing the otherwise empty "
+                                f"transaction changed the table (rows {got})", case)
+                elif got != want and got != [1]:
+                    rep.violate("C11:accepted-append-not-exact:multi-op", f"after a rejected batch the same transaction's record append gives a={got}", case)
     # (2) same base name in two sub-directories, the second one divergent; and a rejected file offered again on the same transaction
     for scenario in ("same-basename", "retry-rejected"):
         p = os.path.join(base, "multi-" + scenario)
